@@ -182,6 +182,8 @@ def run(repo, tier):
     run_forward(repo, res, MODS)
     run_axis(repo, res, MODS)
     a1_collect(repo, res, modules={'photutils.aperture.stats'})
+    from .common import run_nonfinite
+    run_nonfinite(repo, res, MODS)
     res.floor('T-FAMILY', 5)
     res.floor('T-SLOT', 14)
     res.floor('SPEC', 15)
